@@ -4,7 +4,7 @@ import Cpppo.Model.ClientRxSpec
 driver for the client receive model (C13)
 
   `crx <pipe|sync|syncold> <depth> <index> <issued> <events> [<k>:<whole stream hex>]`
-  `prx <n|e> <depth> <use|use|...> <events|events|...>`
+  `prx <n|e> <ident 0|1> <depth> <use|use|...> <events|events|...>`   (ident 1: proxy without identity_default)
 
   issued  `idx:ctxhex:svc,...` or `-`
   events  `,`-separated: a hex chunk, `E` (EOF) or `Q` (nothing within the timeout); `-` = none
@@ -12,7 +12,7 @@ driver for the client receive model (C13)
   of `exchange_cut_segmented` evaluated on this exchange, and its right-hand side compared with the run
 answers
   `connect:<err>`  or  `<idx>/<rawhex><+|->,...;<ok|err>`   (`+`: `collect` gave a value, `-`: `None`)
-  for `prx` one answer per use, joined by `|`: `c<conn>:<number of values>;<ok|err>` or `c<conn>:connect:<err>`;
+  for `prx` one answer per use, joined by `|`: `c<conn>:<number of values>;<ok|err>` or `c<conn>:connect:<err>` / `c<conn>:identify:<err>`;
   `refused` when out of connections
 -/
 namespace Cpppo.Driver.ClientRx
@@ -44,6 +44,9 @@ def showConnErr : ConnErr → String
   | .noresponse => "noresponse" | .noenip => "noenip" | .partialHeld => "partial-held"
   | .rxerror => "rxerror" | .status => "status" | .notregister => "notregister"
 
+def showIdErr : IdErr → String
+  | .noidentity => "noidentity" | .rxerror => "rxerror" | .badidentity => "badidentity"
+
 def showEnd : End → String
   | .ok => "ok"
   | .error e => showErr e
@@ -57,7 +60,8 @@ def showRun (rs : List Res) (e : End) : String :=
 /-- `fmt = "n"`: number of values and end; `fmt = "e"`: the number only for a use that succeeded (what a
 `poll.run` observer sees) -/
 def showUse (fmt : String) : UseOut → String
-  | .connfail n e => s!"c{n}:connect:{showConnErr e}"
+  | .openfail n (.connect e) => s!"c{n}:connect:{showConnErr e}"
+  | .openfail n (.identify e) => s!"c{n}:identify:{showIdErr e}"
   | .ran n rs .ok => s!"c{n}:{rs.length};ok"
   | .ran n rs (.error e) => if fmt = "e" then s!"c{n}:?;{showErr e}" else s!"c{n}:{rs.length};{showErr e}"
   | .refused => "refused"
@@ -114,11 +118,12 @@ def handle : List String → Option String
     let issued ← parseIssued issued
     let evs ← parseEvs evs
     crx api depth index issued evs
-  | ["prx", fmt, depth, uses, conns] => do
+  | ["prx", fmt, ident, depth, uses, conns] => do
+    let ident ← if ident = "1" then some true else if ident = "0" then some false else none
     let depth ← depth.toNat?
     let uses ← (splitOn uses '|').mapM parseIssued
     let conns ← (splitOn conns '|').mapM parseEvs
-    let outs := proxyRun parseFrame depth conns { gateway := none, opened := 0 } uses
+    let outs := proxyRun parseFrame ident depth conns { gateway := none, opened := 0 } uses
     pure ("|".intercalate (outs.map (showUse fmt)))
   | _ => none
 
